@@ -172,6 +172,42 @@ class Seq(Harness):
         ctx.observe([w[1] for w in tr.writes], up.events, p._rx_seq)
 
 
+class InFlight(Harness):
+    """A host DATA frame is in flight (its acknowledgement future registered) and TWO frames from the peer are processed in
+    the same loop callback (one serial read): the receiver side must behave as in the step oracle for both."""
+
+    name = "c04_inflight"
+    must_reach = ("accepted", "rejected", "second-ack-on-done-future")
+    functions = Step.functions
+
+    def run(self, ctx, via="object", txs=(0, 5)):
+        import asyncio
+
+        rx = ctx.int("rx", 0, 7)
+        tx = txs[ctx.choice("tx", len(txs))]  # number of the next host frame; frame tx-1 is in flight
+        ash, p, tr, up = mk(ctx, rx, tx)
+        loop = asyncio.new_event_loop()
+        try:
+            fut = loop.create_future()
+            p._pending_data_frames[(tx - 1) % 8] = fut
+            for i in range(2):
+                f = sym_frame(ctx, i, 1)
+                w0, u0 = len(tr.writes), len(up.events)
+                rx_before = p._rx_seq
+                try:
+                    inject(ctx, ash, p, f, via)
+                except Exception as e:
+                    ctx.fail("frame %d (%s) raised %s out of the receive path while a host frame was in flight" % (i, f["kind"], type(e).__name__), "rx-raises-inflight")
+                expect_step(ctx, f, rx_before, tr.writes[w0:], up.events[u0:], p._rx_seq, None, p._tx_seq, tag="frame %d with a host frame in flight: " % i)
+                if i == 1 and fut.done():
+                    ctx.label("second-ack-on-done-future")
+            ctx.observe([w[1] for w in tr.writes], up.events, p._rx_seq, fut.done())
+        finally:
+            if fut.done() and not fut.cancelled():
+                fut.exception()
+            loop.close()
+
+
 def main(tier):
     c = Check("C04", tier)
     c.assumptions += [
@@ -184,6 +220,7 @@ def main(tier):
         c.run("checks.c04:STEP", {"via": "object", "plen": 1})
         c.run("checks.c04:STEP", {"via": "wire", "plen": 1})
         c.run("checks.c04:SEQ", {"k": 2, "via": "object", "start": "symbolic"})
+        c.run("checks.c04:INFLIGHT", {"via": "object"})
         c.out_of_bounds += ["sequences longer than 2 frames are covered by the inductive step only (receiver state is exactly the 3-bit expected number; the step starts from all 8 values)",
                             "payloads longer than 1 byte (payload bytes are passed through untouched; longer payloads are C03)"]
     else:
@@ -191,12 +228,15 @@ def main(tier):
         c.run("checks.c04:STEP", {"via": "wire", "plen": 2})
         c.run("checks.c04:SEQ", {"k": 3, "via": "object", "start": "symbolic"})
         c.run("checks.c04:SEQ", {"k": 2, "via": "wire", "start": "symbolic"})
+        c.run("checks.c04:INFLIGHT", {"via": "object", "txs": list(range(8))})
+        c.run("checks.c04:INFLIGHT", {"via": "wire", "txs": [0, 3]})
         c.out_of_bounds += ["sequences longer than 3 frames (object level) / 2 frames (wire level) are covered by the inductive step only"]
     return c.finish()
 
 
 STEP = Step()
 SEQ = Seq()
+INFLIGHT = InFlight()
 
 if __name__ == "__main__":
     sys.exit(main(sys.argv[1] if len(sys.argv) > 1 else "quick"))
